@@ -351,7 +351,12 @@ func ptsKey(vs v2.VecSet) string {
 func delaunayCase(r *Report, stratum string, in v2.VecSet) {
 	n := len(in)
 	key := "delaunay:" + ptsKey(in)
-	robust := n <= 45 && robustGP(in, 1e-7)
+	// robustly general position, and no point closer than 1e-4 (relative) to a hull edge line:
+	// thinner hull triangles are the listed known finding (finite super triangle)
+	robust := n <= 45 && robustGP(in, 1e-7) && !nearHullEdge(in, 1e-4)
+	if strings.HasPrefix(stratum, "corpus") {
+		robust = n <= 45 && robustGP(in, 1e-7)
+	}
 	r.Case("delaunay/"+stratum, key, robust)
 	// Delaunay2d sorts its argument in place: give it a copy and keep that copy for indices
 	vs := append(v2.VecSet{}, in...)
@@ -437,4 +442,39 @@ func ptsList(vs v2.VecSet) [][2]float64 {
 		o[i] = [2]float64{p.X, p.Y}
 	}
 	return o
+}
+
+// nearHullEdge: some point lies within tol*L of the line through two consecutive hull vertices
+// (other than those two).
+func nearHullEdge(vs v2.VecSet, tol float64) bool {
+	n := len(vs)
+	mn, mx := vs.Min(), vs.Max()
+	L := math.Max(mx.X-mn.X, mx.Y-mn.Y)
+	for i := 0; i < n; i++ {
+		for j := 0; j < n; j++ {
+			if i == j {
+				continue
+			}
+			// is (i,j) a hull edge: all other points strictly on the left or on the line
+			hull := true
+			for k := 0; k < n && hull; k++ {
+				if k != i && k != j && orient(vs[i], vs[j], vs[k]).Sign() < 0 {
+					hull = false
+				}
+			}
+			if !hull {
+				continue
+			}
+			el := math.Hypot(vs[j].X-vs[i].X, vs[j].Y-vs[i].Y)
+			for k := 0; k < n; k++ {
+				if k == i || k == j {
+					continue
+				}
+				if d := f64(orient(vs[i], vs[j], vs[k])) / el; math.Abs(d) < tol*L {
+					return true
+				}
+			}
+		}
+	}
+	return false
 }
